@@ -1,7 +1,7 @@
 (* C12: executable model of mixed_edge_moral_graph (pywhy_graphs/networkx/algorithms/causal/mixed_edge_moral.py).
    Repaired rule: clique on (district ∪ parents of the district). *)
 From Coq Require Import List Arith Bool Lia.
-From PG Require Import Base.ListSet Base.Closure Base.Sx Graph.MGraph.
+From PG Require Import Base.ListSet Base.Closure Base.Sx Graph.MGraph Graph.MSep.
 Import ListNotations.
 
 Definition district (g : mgraph) (v : nat) : list nat :=
@@ -23,10 +23,45 @@ Definition all_pairs (vs : list nat) : list (nat * nat) :=
 Definition moral_edges (g : mgraph) : list (nat * nat) :=
   filter (fun p => Nat.ltb (fst p) (snd p) && moral_adj g (fst p) (snd p)) (all_pairs (V g)).
 
-(* run_case: L [I 0; graph] -> L [nodes; edges] *)
+(* ---- the separation criterion: vertex cut in the moral graph of the anterior subgraph ---- *)
+(* anterior closure: follow directed edges backwards and undirected edges (mirror of _anterior) *)
+Definition ant_of (g : mgraph) (s : list nat) : list nat :=
+  closure Nat.eqb (fun v => parents g v ++ unbrs g v) s (length (V g)).
+
+Definition keep_edges (s : list nat) (l : list (nat * nat)) : list (nat * nat) :=
+  filter (fun p => memb (fst p) s && memb (snd p) s) l.
+
+(* induced subgraph *)
+Definition restrict (g : mgraph) (s : list nat) : mgraph :=
+  MkG (filter (fun v => memb v s) (V g)) (keep_edges s (D g)) (keep_edges s (B g))
+      (keep_edges s (U g)) (keep_edges s (C g)).
+
+Definition moral_nbrs (g : mgraph) (v : nat) : list nat := filter (fun b => moral_adj g v b) (V g).
+
+(* nodes reachable from X in the moral graph of g along paths that never touch Z *)
+Definition cut_reach (g : mgraph) (X Z : list nat) : list nat :=
+  closure Nat.eqb (fun v => diffb (moral_nbrs g v) Z) (diffb X Z) (length (V g)).
+
+(* Z is a vertex cut between X and Y in the moral graph of g *)
+Definition vertex_cut (g : mgraph) (X Y Z : list nat) : bool :=
+  negb (existsb (fun y => memb y (cut_reach g X Z)) Y).
+
+Definition ant_graph (g : mgraph) (s : list nat) : mgraph := restrict g (ant_of g s).
+
+Definition moral_sep (g : mgraph) (X Y Z : list nat) : bool :=
+  vertex_cut (ant_graph g (X ++ Y ++ Z)) X Y Z.
+
+(* run_case: L [I 0; graph] -> L [nodes; edges]
+             L [I 1; graph; L [L [X;Y;Z]; ...]] -> per query L [criterion; msep_dec]   (small graphs)
+             L [I 2; graph; queries]             -> per query L [criterion]            (large graphs) *)
 Definition run_case (s : sx) : sx :=
   let g := sx_graph (sx_nth s 1) in
+  let qs := sx_list (sx_nth s 2) in
+  let q3 (q : sx) := (sx_nats (sx_nth q 0), sx_nats (sx_nth q 1), sx_nats (sx_nth q 2)) in
   match sx_nat (sx_nth s 0) with
   | 0 => L [of_nats (sort_set (V g)); of_pairs (psort_set (moral_edges g))]
+  | 1 => L (map (fun q => let '(X, Y, Z) := q3 q in
+                          L [of_bool (moral_sep g X Y Z); of_bool (msep_dec g X Y Z)]) qs)
+  | 2 => L (map (fun q => let '(X, Y, Z) := q3 q in L [of_bool (moral_sep g X Y Z)]) qs)
   | _ => L []
   end.
